@@ -524,7 +524,7 @@ pub fn run_c12(opt: &Options) -> i32 {
     let (cases, per) = if opt.thorough() {
         (opt.scaled(2_000_000), 12u64)
     } else {
-        (opt.scaled(60_000), 4u64)
+        (opt.scaled(300_000), 4u64)
     };
     let fps = Distinct::new(30);
     let nontrivial = Distinct::new(30);
